@@ -5,7 +5,8 @@
 (* a behaviour of SpanIdentity.  Ids are logged as first-appearance ranks *)
 (* (one counter for trace and span ids, 0 = all-zero id); they are passed *)
 (* to the spec's actions as the "fresh" parameters and must be unused.    *)
-(* Events: Cfg | remote | start | with | release | end, each with `cur` = *)
+(* Events: Cfg | remote | start | with(sc) | release(t, sc: any live     *)
+(* scope, any thread) | end, each with `cur` =                            *)
 (* <<trace rank, span rank>> of GetCurrentSpan() on every thread.         *)
 (* Ranks count over the WHOLE log (all programs, OS-thread generations    *)
 (* behind a model thread, forked children): `hi` = highest rank consumed  *)
@@ -23,7 +24,7 @@ Ev == TraceLog[l]
 Is(e) == l <= Len(TraceLog) /\ Ev.e = e /\ l' = l + 1
 UsedIds == {ents[e].trace : e \in 1..Len(ents)} \cup {ents[e].span : e \in 1..Len(ents)}
 CurOK == \A t \in Thr :
-           LET a == IF stack'[t] = <<>> THEN 0 ELSE stack'[t][Len(stack'[t])] IN
+           LET a == IF stack'[t] = <<>> THEN 0 ELSE stack'[t][Len(stack'[t])].e IN
            /\ Ev.cur[t][1] = (IF a = 0 THEN 0 ELSE ents'[a].trace)
            /\ Ev.cur[t][2] = (IF a = 0 THEN 0 ELSE ents'[a].span)
 
@@ -31,7 +32,7 @@ Max(a, b) == IF a > b THEN a ELSE b
 TInit == Init /\ l = 1 /\ nexec = 0 /\ devAll = {} /\ hi = 0 /\ TLCSet(1, 0)
 
 TCfg == /\ Is("Cfg")
-        /\ ents' = <<>> /\ stack' = [t \in Thr |-> <<>>] /\ nid' = 1 /\ ops' = 0 /\ nrem' = 0
+        /\ ents' = <<>> /\ stack' = [t \in Thr |-> <<>>] /\ live' = {} /\ rm' = {} /\ nid' = 1 /\ ops' = 0 /\ nrem' = 0
         /\ devUsed' = {} /\ actor' = 0 /\ ls' = <<>> /\ lastop' = <<>> /\ hist' = <<>>
         /\ nexec' = nexec + 1 /\ devAll' = devAll \cup devUsed /\ UNCHANGED hi
 
@@ -58,8 +59,8 @@ TStart == /\ Is("start")
              /\ hi' = Max(hi, Max(n.trace, n.span))
           /\ CurOK /\ UNCHANGED <<nexec, devAll>>
 
-TWith == /\ Is("with") /\ WithActive(Ev.t, Ev.en) /\ CurOK /\ UNCHANGED <<nexec, devAll, hi>>
-TRelease == /\ Is("release") /\ ReleaseScope(Ev.t) /\ CurOK /\ UNCHANGED <<nexec, devAll, hi>>
+TWith == /\ Is("with") /\ WithActive(Ev.t, Ev.en, Ev.sc) /\ CurOK /\ UNCHANGED <<nexec, devAll, hi>>
+TRelease == /\ Is("release") /\ ReleaseScope(Ev.t, Ev.sc) /\ CurOK /\ UNCHANGED <<nexec, devAll, hi>>
 TEnd == /\ Is("end")
         /\ EndSpan(Ev.t, Ev.en)
         /\ LET x == ents'[Ev.en] IN
